@@ -444,7 +444,11 @@ class Repo:
 
         self.inline_log = inline_extras({n: m.tree for n, m in self.modules.items()}, self.root)
         if self.inline_log:
+            from .canon import canonicalise
+
             for m in self.modules.values():
+                if not os.environ.get("SA_NO_CANON"):
+                    canonicalise(m.tree)  # inlining exposes new constant parts / temporaries
                 set_parents(m.tree)
         self.classes: Dict[str, ClassInfo] = {}
         for m in self.modules.values():
